@@ -161,6 +161,9 @@ func JSONWriteItemCollectionValue(b *[]byte, col ItemCollection, compact bool) (
 	}
 	if len(col) == 1 && compact {
 		it := col[0]
+		if IsNil(it) {
+			return false
+		}
 		im, ok := it.(json.Marshaler)
 		if !ok {
 			return false
@@ -183,6 +186,9 @@ func JSONWriteItemCollectionValue(b *[]byte, col ItemCollection, compact bool) (
 	JSONWrite(b, '[')
 	skipComma := true
 	for _, it := range col {
+		if IsNil(it) {
+			continue
+		}
 		im, ok := it.(json.Marshaler)
 		if !ok {
 			continue
